@@ -242,7 +242,7 @@ def build():
     F, P, WS = 'transfer_length as int', 'max_packet_size as int', 'decoder_memory_requirement as int'
     ctx = ('alignment as int == al_of(%s), sub_symbol_size as int == ss_of(%s), symbol_size as int == t_of(%s), symbol_size >= 1,'
            ' params_exist(%s, %s, %s), n_max as int == nmax_of(%s), n_max >= 1, n_max <= 65535,' % (P, P, P, F, P, WS, P))
-    u.fn('src/base.rs', 'generate_encoding_parameters', impl='impl ObjectTransmissionInformation', ret='r',
+    u.fn('src/base.rs', 'generate_encoding_parameters', impl='impl ObjectTransmissionInformation', ret='r', isolate_loops=True,
          rules=['D3_tuple', 'D6', 'A1'],
          requires=['params_exist(%s, %s, %s)' % (F, P, WS)],
          ensures=[
